@@ -980,3 +980,48 @@ def g_peek( ctx ):
     if not n:
         raise AnalysisError( 'G-PEEK: no look-ahead predicate ( next( source ) in a function taking source ) found' )
     return res
+
+
+PARSER = 'server/enip/parser.py'
+
+
+@rule( 'G-USEND', props=( 'C08', ), floor=1 )
+def g_usend( ctx ):
+    """unconnected_send: behind the embedded message ( the octets state of context 'request' ) the machine becomes terminal only inside the route
+    path: no terminal state is reachable from the message without entering the route_path sub-machine.  A terminal no-input state in
+    between makes the route path optional: an Unconnected Send that ends right behind its message - a frame cut off there, lengths adjusted -
+    is carried out."""
+    res = Result( 'G-USEND' )
+    g = grammar_of( ctx )
+    m = g.machines.get( 'unconnected_send' )
+    if m is None:
+        raise AnalysisError( 'machine unconnected_send not extracted' )
+    top = g.nodes( m.sub_initial(), into_sub=False )
+    mesg = [ n for n in top if n.kw.get( 'context' ) == 'request' and not n.terminal_flag ]
+    if len( mesg ) != 1:
+        raise AnalysisError( 'unconnected_send: the message state ( context request ) not found among %d states' % len( top ))
+    seen, todo, early = set(), [ mesg[0] ], []
+    routes = 0
+    while todo:
+        n = todo.pop()
+        if n.id in seen:
+            continue
+        seen.add( n.id )
+        for k, t, d in g.edges_of( n ):
+            if t is None:
+                continue
+            if t.isa( 'route_path' ) or t.cls == 'route_path':
+                routes += 1
+                continue
+            if t.terminal_flag:
+                early.append( t )
+            todo.append( t )
+    if not routes:
+        res.bad( ctx.src( PARSER ), ctx.src( PARSER ).get( 'unconnected_send.__init__' ), 'unconnected_send: no route_path behind the message', 'the route path is part of the request' )
+    elif early:
+        t = early[0]
+        res.bad( ctx.src( PARSER ), ctx.src( PARSER ).get( 'unconnected_send.__init__' ), 'unconnected_send: state %r behind the message is terminal before the route path' % t.name,
+                 'an Unconnected Send that ends right behind its embedded message is complete: a frame truncated there ( its lengths saying so ) is carried out - the tag is written - instead of being refused' )
+    else:
+        res.ok( ctx.src( PARSER ), ctx.src( PARSER ).get( 'unconnected_send.__init__' ), 'unconnected_send: from the message on, the machine is terminal only inside the route path ( %d states walked )' % len( seen ))
+    return res
